@@ -44,9 +44,15 @@ int pika_main(int argc, char** argv)
     }
     std::ptrdiff_t small_stack = 0;
     pika::this_thread::experimental::sync_wait(ex::schedule(ex::thread_pool_scheduler{&pool}) | ex::then([&] { small_stack = pika::threads::detail::get_self_stacksize(); }));
-    std::printf("{\"probe\": 1, \"os_threads\": %zu, \"scheduler\": \"%s\", \"stack_small\": %td, ", n,
-        esc(pool.get_scheduler()->get_description()).c_str(), small_stack);
-    for (const char* key : {"pika.os_threads", "pika.scheduler", "pika.bind", "pika.stacks.small_size", "pika.process_mask", "verif.free_entry", "pika.cores"})
+    std::ptrdiff_t cls_stack[3] = {0, 0, 0};
+    {
+        pika::execution::thread_stacksize const cls[3] = {pika::execution::thread_stacksize::medium, pika::execution::thread_stacksize::large, pika::execution::thread_stacksize::huge};
+        for (int i = 0; i < 3; ++i)
+            pika::this_thread::experimental::sync_wait(ex::schedule(ex::with_stacksize(ex::thread_pool_scheduler{&pool}, cls[i])) | ex::then([&, i] { cls_stack[i] = pika::threads::detail::get_self_stacksize(); }));
+    }
+    std::printf("{\"probe\": 1, \"os_threads\": %zu, \"scheduler\": \"%s\", \"stack_small\": %td, \"stack_medium\": %td, \"stack_large\": %td, \"stack_huge\": %td, ", n,
+        esc(pool.get_scheduler()->get_description()).c_str(), small_stack, cls_stack[0], cls_stack[1], cls_stack[2]);
+    for (const char* key : {"pika.os_threads", "pika.scheduler", "pika.bind", "pika.stacks.small_size", "pika.stacks.medium_size", "pika.stacks.large_size", "pika.stacks.huge_size", "pika.process_mask", "verif.free_entry", "pika.cores"})
         std::printf("\"cfg:%s\": \"%s\", ", key, esc(pika::detail::get_config_entry(key, std::string("<unset>"))).c_str());
     std::printf("\"worker_masks\": [");
     for (std::size_t i = 0; i < n; ++i) std::printf("%s%lu", i ? ", " : "", masks[i]);
